@@ -43,14 +43,15 @@ def check_case(ctx, cs):
         return
     before = [copy.deepcopy(project(e)) for e in elems]
     site = "operations." + op
+    kw = {"inplace": True} if inplace else {}          # (not in place is the documented default: the option is left out)
     try:
         if op == "translate":
-            ret = operations.translate(target, [float(x) for x in frv(o["vec"])], inplace=inplace)
+            ret = operations.translate(target, [float(x) for x in frv(o["vec"])], **kw)
         elif op == "scale":
-            ret = operations.scale(target, float(fr(o["f"])), inplace=inplace)
+            ret = operations.scale(target, float(fr(o["f"])), **kw)
         else:
             deg = float(fr(o["deg"])) if o["deg"] != [0, 0] else math.degrees(math.atan2(4.0, 3.0))
-            ret = operations.rotate(target, deg, axis=o["axis"], inplace=inplace)
+            ret = operations.rotate(target, deg, axis=o["axis"], **kw)
     except Exception as e:
         ctx.violate(site, tg + ["raises"], small, {"exception": repr(e)[:300]})
         return
